@@ -3,6 +3,7 @@ package main
 import (
 	"fmt"
 	"go/token"
+	"go/types"
 	"strings"
 
 	"golang.org/x/tools/go/ssa"
@@ -236,42 +237,10 @@ func checkC02(c *Ctx, r *Report) {
 
 	// ---- R6 ---------------------------------------------------------------
 	r6 := r.Rule("C02-R6", "E8", 4, "cursor discipline: cursor advances by exactly the bytes copied out, which is what Read returns; copy source starts at the cursor; queue released exactly at its end")
-	cursorCheck(c, r6, ss("Read"), ssT+".qseek", ssT+".qbuf")
+	cursorCheck(c, r6, ss("Read"), ssT+".qseek", ssT+".qbuf", true)
 	scT := "p2p/transport/tcpreuse/internal/sampledconn.wrappedSampledConn"
-	cursorCheck(c, r6, "(*"+scT+").Read", scT+".bytesPeeked", scT+".peekedBytes")
+	cursorCheck(c, r6, "(*"+scT+").Read", scT+".bytesPeeked", scT+".peekedBytes", false)
 	if f := r6.need(ss("Read")); f != nil {
-		// queue released exactly when consumed: qbuf = nil and qseek = 0 only past qseek == len(qbuf); and always then
-		nilStores := findInstrs(f, func(in ssa.Instruction) bool {
-			st, ok := in.(*ssa.Store)
-			return ok && isFieldWrite(in, ssT+".qbuf") && isNilConst(st.Val)
-		})
-		zeroStores := findInstrs(f, func(in ssa.Instruction) bool {
-			st, ok := in.(*ssa.Store)
-			if !ok || !isFieldWrite(in, ssT+".qseek") {
-				return false
-			}
-			k, isC := constInt(st.Val)
-			return isC && k == 0
-		})
-		// the comparison reads the cursor after the advance: A = the stored new cursor value or a load of qseek, B = len(qbuf)
-		isCursor := func(v ssa.Value) bool { return isLoadOfField(ssT+".qseek")(v) || isCursorSum(v, ssT+".qseek") }
-		lenQ := func(v ssa.Value) bool {
-			call, ok := v.(*ssa.Call)
-			return ok && calleeKey(call) == "builtin.len" && isLoadOfField(ssT+".qbuf")(call.Call.Args[0])
-		}
-		atEnd := edgeExcl(isCursor, lenQ, ordLT) // cursor > len cannot happen; `>=` is an equivalent spelling
-		r6.guard(f, "qbuf = nil", nilStores, "qseek == len(qbuf)", atEnd, nil)
-		r6.guard(f, "qseek = 0", zeroStores, "qseek == len(qbuf)", atEnd, nil)
-		// whenever the cursor may equal the queue's length after an advance, the queue is released:
-		// from the advance, a return is reached only through the release or over an edge that proves cursor != len
-		adv := findInstrs(f, func(in ssa.Instruction) bool {
-			st, ok := in.(*ssa.Store)
-			return ok && isFieldWrite(in, ssT+".qseek") && isCursorSum(st.Val, ssT+".qseek")
-		})
-		notEnd := edgeExcl(isCursor, lenQ, ordEQ)
-		w1, n1 := (&Cut{Fn: f, From: adv, Target: isRet, Sep: inSet(nilStores), EdgeCut: notEnd}).Run(c)
-		w2, n2 := (&Cut{Fn: f, From: adv, Target: isRet, Sep: inSet(zeroStores), EdgeCut: notEnd}).Run(c)
-		r6.Check(len(adv) >= 1 && w1 == "" && w2 == "", ss("Read")+": a fully consumed queue is released and the cursor reset", f.Pos(), n1+n2+1, "", "the next Read returns 0 bytes forever (or re-reads stale plaintext with a stale cursor)", w1+w2)
 		// queued bytes are served before the wire is read again
 		wire := findInstrs(f, callPred(ss("readNextInsecureMsgLen")))
 		r6.guard(f, "read next frame", wire, "qbuf == nil", edgeNil(isLoadOfField(ssT+".qbuf"), true), nil)
@@ -279,11 +248,27 @@ func checkC02(c *Ctx, r *Report) {
 		for _, call := range callsIn(f, ss("decrypt")) {
 			a := callArgs(call)
 			dst, isSl := strip2(a[1]).(*ssa.Slice)
-			if !isSl || !isParamVar(c, dst.X, "buf") {
+			if !isSl {
+				continue
+			}
+			// the destination is a zero-length view starting at the beginning of the caller's buffer
+			root := strip2(dst.X)
+			okRoot := true
+			for {
+				inner, isInner := root.(*ssa.Slice)
+				if !isInner {
+					break
+				}
+				if inner.Low != nil {
+					okRoot = false
+				}
+				root = strip2(inner.X)
+			}
+			if !isParamVar(c, root, "buf") {
 				continue
 			}
 			k, isC := constInt(dst.High)
-			okDst := isC && k == 0 && dst.Low == nil
+			okDst := isC && k == 0 && dst.Low == nil && okRoot
 			okRet := false
 			for _, ret := range returnsOf(f) {
 				if lc, ok := strip(ret.Results[0]).(*ssa.Call); ok && calleeKey(lc) == "builtin.len" {
@@ -309,6 +294,10 @@ func checkC02(c *Ctx, r *Report) {
 		}
 		r6.guard(f, "underlying Read", under, "all peeked bytes were replayed", edgeExcl(isCur, isLen, ordLT, ordGT), nil)
 	}
+
+	// ---- R8 ---------------------------------------------------------------
+	r8 := r.Rule("C02-R8", "E5", 1, "half-close: the stream wrapper flushes the lazy handshake through an interface the negotiator actually implements")
+	r8.Check(flushAssertReachesLazyConn(c, "p2p/host/basic"), "(*streamWrapper).CloseWrite: the interface asserted for Flush is one the lazy negotiator satisfies", token.NoPos, 1, "", "the assertion silently fails: the pending handshake is never flushed before the half-close, the remote sees EOF during negotiation and resets: the opener's further reads fail", "")
 
 	// ---- R7 ---------------------------------------------------------------
 	r7 := r.Rule("C02-R7", "E1", 3, "pskConn: every returned byte was decrypted (n > 0 implies keystream applied to out[:n]); Write sends exactly the encrypted copy")
@@ -419,31 +408,50 @@ func isCursorSum(v ssa.Value, cursorKey string) bool {
 // cursorCheck: affine interpretation of every entry→return path of a reader
 // that serves bytes from a queue field through a cursor field.
 //   - every copy whose source is the queue starts at the current cursor
-//     (source = queue[cursor:], or the whole queue when the cursor is known 0
-//     / was just reset),
-//   - after such a copy the cursor equals old cursor + copied on return,
-//   - the count returned is the number copied.
-func cursorCheck(c *Ctx, ru *Rule, fnKey_, cursorKey, queueKey string) {
+//     (source = queue[cursor:], or the whole queue when it starts at 0),
+//   - the count returned is the number copied,
+//   - R = len(queue) - start - copied is what remains. Comparisons on the path
+//     whose two sides differ by ±R (however spelled: cursor' == len(q),
+//     copied < len(pending), ...) tell whether R is 0 or positive;
+//   - a path that releases the queue (queue field := nil, directly or in a
+//     straight-line helper) must have established R == 0 and leave the cursor 0;
+//   - a path that keeps it must leave cursor = start + copied, and — when the
+//     queue existed before this call — must have established R > 0.
+func cursorCheck(c *Ctx, ru *Rule, fnKey_, cursorKey, queueKey string, canRelease bool) {
 	f := ru.need(fnKey_)
 	if f == nil {
 		return
 	}
 	type obs struct {
-		copied   aff
-		low      aff
-		curBefor aff
-		pos      token.Pos
+		copied, low, curBefore aff
+		pos                    token.Pos
+		remZero, remPos        bool // established by the path conditions after the copy
+		freshQueue             bool // the queue was installed on this very path
 	}
 	var failures []string
 	seen := map[string]bool{}
 	paths, copies := 0, 0
-	budget := 5000
+	budget := 8000
 	used := map[[2]int]bool{}
 	fail := func(msg string) {
 		if !seen[msg] {
 			seen[msg] = true
 			failures = append(failures, msg)
 		}
+	}
+	var cursorFA, queueFA *ssa.FieldAddr
+	allInstrs(f, func(in ssa.Instruction) {
+		if fa, ok := in.(*ssa.FieldAddr); ok {
+			if k, _ := fieldKeyOfAddr(fa); k == cursorKey && cursorFA == nil {
+				cursorFA = fa
+			} else if k == queueKey && queueFA == nil {
+				queueFA = fa
+			}
+		}
+	})
+	if cursorFA == nil {
+		ru.Fail(fnKey_+": cursor field", f.Pos(), "the cursor field is not used", "")
+		return
 	}
 	var walk func(b, pred *ssa.BasicBlock, st *acctState, ob []obs)
 	walk = func(b, pred *ssa.BasicBlock, st *acctState, ob []obs) {
@@ -478,38 +486,35 @@ func cursorCheck(c *Ctx, ru *Rule, fnKey_, cursorKey, queueKey string) {
 		}
 		e.phi, e.phiA = map[*ssa.Phi]string{}, map[*ssa.Phi]aff{}
 		e.loadPhis(f)
-		cursorAddr := func() (string, bool) {
-			for _, blk := range f.Blocks {
-				for _, in := range blk.Instrs {
-					if fa, ok := in.(*ssa.FieldAddr); ok {
-						if k, _ := fieldKeyOfAddr(fa); k == cursorKey {
-							return e.addr(fa), true
-						}
-					}
-				}
-			}
-			return "", false
+		ca := e.addr(cursorFA)
+		qa := ""
+		if queueFA != nil {
+			qa = e.addr(queueFA)
 		}
 		for _, in := range b.Instrs {
 			if call, ok := in.(*ssa.Call); ok && calleeKey(call) == "builtin.copy" {
 				src := strip2(call.Call.Args[1])
 				low := affConst(0)
 				base := src
-				if sl, isSl := src.(*ssa.Slice); isSl {
-					base = strip2(sl.X)
-					if sl.Low != nil {
-						low = e.val(sl.Low)
+				for {
+					sl, isSl := base.(*ssa.Slice)
+					if !isSl {
+						break
 					}
 					if sl.High != nil {
 						base = nil // a bounded view: not the pattern
+						break
 					}
+					if sl.Low != nil {
+						low = low.add(e.val(sl.Low), 1)
+					}
+					base = strip2(sl.X)
 				}
 				isQueue := false
 				if base != nil {
 					if fl, bb := loadOfField(base); fl != nil && fieldKeyOf(bb, fl) == queueKey {
 						isQueue = true
 					}
-					// array field: &s.peekedBytes sliced
 					if fa, ok := base.(*ssa.FieldAddr); ok {
 						if k, _ := fieldKeyOfAddr(fa); k == queueKey {
 							isQueue = true
@@ -518,16 +523,12 @@ func cursorCheck(c *Ctx, ru *Rule, fnKey_, cursorKey, queueKey string) {
 				}
 				if isQueue {
 					copies++
-					ca, okA := cursorAddr()
-					cur := affAtom("load(?)")
-					if okA {
-						if v, ok := st.mem[ca]; ok {
-							cur = v
-						} else {
-							cur = affAtom("load(" + ca + ")")
-						}
+					cur, ok := st.mem[ca]
+					if !ok {
+						cur = affAtom("load(" + ca + ")")
 					}
-					ob = append(ob, obs{copied: e.val(call), low: low, curBefor: cur, pos: call.Pos()})
+					_, fresh := st.ptr[qa]
+					ob = append(ob, obs{copied: e.val(call), low: low, curBefore: cur, pos: call.Pos(), freshQueue: fresh && qa != ""})
 				}
 			}
 			e.step(in)
@@ -541,42 +542,94 @@ func cursorCheck(c *Ctx, ru *Rule, fnKey_, cursorKey, queueKey string) {
 					return
 				}
 				o := ob[0]
-				// where the copy started
-				if !o.low.equal(o.curBefor) {
-					// the whole queue may be copied when the cursor is 0 by invariant: it was nil/reset; accept low==0 only if cursor is a fresh load (unknown) — then require the cursor to be *set* (not advanced)
-					if k, isC := o.low.isConst(); !(isC && k == 0) {
-						fail(fmt.Sprintf("%s: copy starts at [%s] but the cursor is [%s]", c.Pos(o.pos), o.low.String(), o.curBefor.String()))
+				if !o.low.equal(o.curBefore) {
+					if k, isC := o.low.isConst(); !(isC && k == 0 && o.freshQueue) {
+						fail(fmt.Sprintf("%s: copy starts at [%s] but the cursor is [%s]", c.Pos(o.pos), o.low.String(), o.curBefore.String()))
 					}
 				}
-				ca, okA := cursorAddr()
-				if !okA {
-					fail("cursor field not addressed")
+				got := e.val(ret.Results[0])
+				after, stored := st.mem[ca]
+				released := qa != "" && st.ptr[qa] == "nil"
+				if !got.equal(o.copied) {
+					if !(stored && got.equal(after) && o.low.equal(affConst(0))) {
+						fail(fmt.Sprintf("%s: Read returns [%s] but [%s] bytes were copied out", c.Pos(ret.Pos()), got.String(), o.copied.String()))
+					}
+				}
+				if released {
+					if !o.remZero {
+						fail(fmt.Sprintf("%s: the queue is released on a path that has not established that nothing remains (remaining = len(queue) - [%s] - [%s])", c.Pos(ret.Pos()), o.low.String(), o.copied.String()))
+					}
+					if k, isC := after.isConst(); !stored || !isC || k != 0 {
+						fail(fmt.Sprintf("%s: the queue is released but the cursor is left at [%s]", c.Pos(ret.Pos()), after.String()))
+					}
 					return
 				}
-				after, stored := st.mem[ca]
+				want := o.low.add(o.copied, 1)
 				if !stored {
 					fail(fmt.Sprintf("%s: the cursor is not advanced after copying from the queue", c.Pos(o.pos)))
 					return
 				}
-				want := o.low.add(o.copied, 1)
-				reset := false
-				if k, isC := after.isConst(); isC && k == 0 {
-					reset = true // released: checked by the release rule
-				}
-				if !reset && !after.equal(want) {
+				if !after.equal(want) {
 					fail(fmt.Sprintf("%s: after copying [%s] bytes from offset [%s] the cursor is [%s], expected [%s]", c.Pos(o.pos), o.copied.String(), o.low.String(), after.String(), want.String()))
 				}
-				got := e.val(ret.Results[0])
-				if !got.equal(o.copied) {
-					// the count may be returned through the cursor field when the copy started at 0
-					if !(got.equal(after) && o.low.equal(affConst(0))) {
-						fail(fmt.Sprintf("%s: Read returns [%s] but [%s] bytes were copied out", c.Pos(ret.Pos()), got.String(), o.copied.String()))
-					}
+				if canRelease && !o.freshQueue && !o.remPos {
+					fail(fmt.Sprintf("%s: the queue is kept on a path that has not established that bytes remain: a fully consumed queue would never be released (every later Read returns 0 bytes)", c.Pos(ret.Pos())))
 				}
 				return
 			}
 			if _, ok := in.(*ssa.Panic); ok {
 				return
+			}
+		}
+		// what the branch condition says about the remaining bytes
+		var remInfo [2][2]bool // [succ][zero,pos]
+		if ifi := ifOf(b); ifi != nil && len(ob) == 1 {
+			o := ob[0]
+			cond, neg := stripNot(ifi.Cond)
+			if bo, ok := cond.(*ssa.BinOp); ok && isIntType(bo.X.Type()) {
+				d := e.val(bo.X).add(e.val(bo.Y), -1) // X - Y
+				lenQ := affAtom("len(load(" + qa + "))")
+				if queueFA != nil {
+					if _, isArr := queueFA.Type().Underlying().(*types.Pointer).Elem().Underlying().(*types.Array); isArr {
+						lenQ = e.lenOf(queueFA, 0)
+					}
+				}
+				r := lenQ.add(o.low, -1).add(o.copied, -1) // remaining
+				sign := 0
+				if d.equal(r) {
+					sign = 1
+				} else if d.equal(r.scale(-1)) {
+					sign = -1
+				}
+				if sign != 0 {
+					for s := 0; s < 2; s++ {
+						t := (s == 0) != neg // truth of the comparison on this edge
+						// relation of d to 0 on this edge
+						var lt, eq, gt bool // which of d<0, d==0, d>0 remain possible
+						switch bo.Op {
+						case token.LSS:
+							lt, eq, gt = t, !t, !t
+						case token.LEQ:
+							lt, eq, gt = t, t, !t
+						case token.GTR:
+							lt, eq, gt = !t, !t, t
+						case token.GEQ:
+							lt, eq, gt = !t, t, t
+						case token.EQL:
+							lt, eq, gt = !t, t, !t
+						case token.NEQ:
+							lt, eq, gt = t, !t, t
+						default:
+							continue
+						}
+						if sign < 0 {
+							lt, gt = gt, lt // r = -d
+						}
+						// r >= 0 always (copy never takes more than there is)
+						remInfo[s][0] = eq && !gt
+						remInfo[s][1] = gt && !eq
+					}
+				}
 			}
 		}
 		for si, s := range b.Succs {
@@ -585,7 +638,16 @@ func cursorCheck(c *Ctx, ru *Rule, fnKey_, cursorKey, queueKey string) {
 				continue
 			}
 			used[ek] = true
-			walk(s, b, st.clone(), append([]obs(nil), ob...))
+			nob := append([]obs(nil), ob...)
+			if len(nob) == 1 && si < 2 {
+				if remInfo[si][0] {
+					nob[0].remZero = true
+				}
+				if remInfo[si][1] {
+					nob[0].remPos = true
+				}
+			}
+			walk(s, b, st.clone(), nob)
 			delete(used, ek)
 		}
 	}
@@ -594,5 +656,5 @@ func cursorCheck(c *Ctx, ru *Rule, fnKey_, cursorKey, queueKey string) {
 		ru.Fail(fnKey_+": copy from the queue", f.Pos(), "no copy(dst, queue[cursor:]) found", "")
 		return
 	}
-	ru.Check(len(failures) == 0, fnKey_+": cursor advances by exactly the bytes copied out, which is the count returned", f.Pos(), paths, fmt.Sprintf("%d paths", paths), "bytes of the queued remainder are skipped or delivered twice", strings.Join(failures, " | "))
+	ru.Check(len(failures) == 0, fnKey_+": cursor advances by exactly the bytes copied out, which is the count returned; the queue is released exactly when nothing remains", f.Pos(), paths, fmt.Sprintf("%d paths", paths), "bytes of the queued remainder are skipped, delivered twice, dropped at release, or the queue is never released", strings.Join(failures, " | "))
 }
